@@ -1094,6 +1094,35 @@ func (e *c34Env) analyse(fam, format string, s *PkgSpec, data []byte, res *c34Re
 		}
 		simple("C04", "", fmt.Sprintf("ar members %q of the deb", arNames),
 			fmt.Sprintf("c04deb %s %s %s %s", wire.H(info.Deb.Compression), c34Opt(sig, hasSig), c34HexList(arNames), wire.H(string(d.DebianBinary))))
+		// byte-level ar model: the file must be exactly what the model writer produces for these members, and the
+		// proven Lean reader must recover the same members as the Go reader (small packages only: byte lists)
+		if len(data) <= e.segCap/4 && len(d.Members) > 0 {
+			var req strings.Builder
+			fmt.Fprintf(&req, "arfile %d %d", d.Members[0].MTime, len(d.Members))
+			sameTime := true
+			for _, m := range d.Members {
+				fmt.Fprintf(&req, " %s %s", wire.H(m.Name), wire.H(string(m.Body)))
+				sameTime = sameTime && m.MTime == d.Members[0].MTime
+			}
+			res.check(sameTime, "ar-member-times-differ", "the ar members carry different times")
+			res.Checks = append(res.Checks, "arfile", "arread")
+			ask(req.String(), func(ans string) {
+				got, _ := wire.UnH(ans)
+				if got != string(data) {
+					res.f04("ar-bytes-differ-from-model", "the deb file differs from the ar model's rendering of its own members: "+c34FirstDiff(got, string(data)))
+				}
+			})
+			ask("arread "+wire.H(string(data)), func(ans string) {
+				var want strings.Builder
+				fmt.Fprintf(&want, "%d", len(d.Members))
+				for _, m := range d.Members {
+					fmt.Fprintf(&want, " %s %d", wire.H(m.Name), len(m.Body))
+				}
+				if ans != want.String() {
+					res.f04("ar-lean-reader-disagrees", fmt.Sprintf("the Lean ar reader answers %.200q, the Go reader found %.200q", ans, want.String()))
+				}
+			})
+		}
 		res.check(d.GlobalHeaderOK, "ar-global-header", "the file does not start with the ar global header")
 		res.check(d.Trailing == 0, "ar-trailing-bytes", "%d bytes follow the last complete ar member", d.Trailing)
 		for _, m := range d.Members {
@@ -1695,10 +1724,35 @@ func c34Families(c *Ctx, prop string, seg *c34Seg) (*c34Env, error) {
 		e.signedCases(c.R.Fork("c34-signed")), seg))
 	keep(e.runFamily(prop, "extras", "scripts {none, first, all, last; archlinux: each script alone; thorough: 6 random subsets} x 5 formats, changelog (deb incl. changelog+all scripts+dpkg-sig, rpm) x compression {\"\", xz, zstd}, each on a mixed and on an empty payload with info.MTime set and unset (SOURCE_DATE_EPOCH unset); with info.MTime unset every format is additionally built once while the sub-second part of the wall clock is below 0.3 s and once while it is above 0.6 s (the clock is an input then). Checked: "+what+c34Common,
 		e.extrasCases(c.R.Fork("c34-extras")), seg))
+	keep(e.runFamily(prop, "apk-segment-sizes", "apk packages whose cut segments end on every residue modulo 512: the description is lengthened one byte at a time over 512 consecutive lengths, so that .PKGINFO – the last member of the control segment when no script is set – takes every size class including an exact multiple of 512 (no padding owed); the same for the signature segment with a signing callback returning 255, 256, 511, 512, 513 and 1024 bytes; empty payload and one 512-byte file. Checked: "+what+c34Common,
+		e.apkSegmentSizeCases(), seg))
 	r := c.R.Fork("c34-random")
 	keep(e.runFamily(prop, "random", "random content lists over a real source tree (files, config types, dirs, symlinks, trees, globs, ghost/doc/licence/readme, packager tags, partial file_info incl. setuid/setgid/sticky, owner, explicit mtime; single-character and nested directory names such as /a/x and /b/, names with spaces and unicode, exact block-size files, occasionally a 300 KiB file) x umask x mtime set/unset x 5 formats x random compression, 1/4 with a random subset of scripts, 1/6 with a changelog (deb, rpm), 1/5 signed (deb debsign/dpkg-sig, rpm, apk). Checked: "+what+c34Common,
 		e.randomCases(r, c.N(400, 12000)), seg))
 	return e, firstErr
+}
+
+// apkSegmentSizeCases: every residue of the .PKGINFO size modulo 512, and signature members around the block size.
+func (e *c34Env) apkSegmentSizeCases() []c34Case {
+	var out []c34Case
+	payloads := []c34Payload{{"empty", nil}, {"exact-512", []wire.Content{c34File(e.exact[512], "/usr/share/x/block.bin")}}}
+	for d := 0; d < 512; d++ {
+		d := d
+		p := payloads[d%2]
+		s := c10derive(c34Base(p, 1700000000), map[string]any{"description_length": 20 + d}, func(info *nfpm.Info) {
+			info.Description = "segment size sweep " + strings.Repeat("x", 1+d)
+		})
+		out = append(out, c34Case{S: s, Format: "apk", Class: "pkginfo-size", Label: fmt.Sprintf("apk-segment-sizes/pkginfo+%d", d), MustBuild: true})
+	}
+	for _, n := range []int{255, 256, 511, 512, 513, 1024} {
+		n := n
+		s := c10derive(c34Base(payloads[1], 1700000000), map[string]any{"apk.signature": map[string]any{"sign_fn": fmt.Sprintf("callback returning %d bytes", n), "key_name": "sweep"}}, func(info *nfpm.Info) {
+			info.APK.Signature.KeyName = "sweep"
+			info.APK.Signature.SignFn = func(io.Reader) ([]byte, error) { return bytes.Repeat([]byte{0x5a}, n), nil }
+		})
+		out = append(out, c34Case{S: s, Format: "apk", Class: "signature-size", Label: fmt.Sprintf("apk-segment-sizes/signature-%d", n), MustBuild: true})
+	}
+	return out
 }
 
 func runC03(c *Ctx) error {
